@@ -8,15 +8,11 @@
    the calls that ARRIVE at the provider when Start calls may be delayed.
    Variants:  [V fs fo fl fp] = the code with the first three repairs and fix_ghost, plus any subset of fix_sent, fix_order,
               fix_l2stop, fix_prune;  [Vg ...] = the same without fix_ghost (historical);
-              [Vq ...] = the same without fix_presend;
-              [head] = Vq true false true true = /repo HEAD (committed: 7e92d8e, e0693a6, d70a5ae, 9b87063, d95fed1, 7faf7f9,
-              5478db8).  Two findings are not repaired in /repo: fix_order (provider calls sent from unordered goroutines;
-              no patch, RepairSpec.v is the specification of that repair) and fix_presend (LastSent reaches the checkpoint
-              only with the outcome of the request: a restart while an Interim is unanswered forgets it;
-              fixes/C09_persist_sent_before_request.patch).  The theorems are stated for V; C09_head_when_interims_are_answered
-              transfers each of them to /repo HEAD for the histories in which every Interim is answered (acknowledged or
-              failed) before anything else happens to the session - exactly what the fix_presend finding excludes.
-              [repaired] = V true true true true;  [before_5478db8], [before_7faf7f9], [before_9b87063], [defective]
+              [Vq ...] = the same without fix_presend (historical);
+              [head] = V true false true true = /repo HEAD (committed: 7e92d8e, e0693a6, d70a5ae, 9b87063, d95fed1, 7faf7f9,
+              5478db8, 4de5a6b).  The one finding not repaired in /repo is fix_order (provider calls sent from unordered
+              goroutines; no patch, RepairSpec.v is the specification of that repair).
+              [repaired] = V true true true true;  [before_4de5a6b], [before_5478db8], [before_7faf7f9], [before_9b87063], [defective]
               are historical.
    Hypotheses:  W  lrun_wraps = false — no uint64 cumulative wrapped; C09_no_wrap_if_total_small derives it from the
                    readings alone, for every variant and access type;
@@ -99,22 +95,21 @@ Theorem C09_report_not_below_floor :
 Proof. exact report_ge_floor. Qed.
 Print Assumptions C09_report_not_below_floor.
 
-(* /repo HEAD runs exactly like V true false true true on every history in which each Interim sent is answered - [EAck] or
-   [ENack] right after [ETick _ false] - before any other notification; every theorem for V carries over to HEAD under
-   [answered evs = true] *)
-Theorem C09_head_when_interims_are_answered :
+(* historical (code before 4de5a6b): it ran exactly like /repo HEAD on every history in which each Interim sent was answered -
+   [EAck] or [ENack] right after [ETick _ false] - before any other notification *)
+Theorem C09_before_4de5a6b_when_interims_are_answered :
   forall g evs, answered evs = true ->
-  lrun head g sst0 evs = lrun (V true false true true) g sst0 evs /\
-  lrun_wraps head g sst0 evs = lrun_wraps (V true false true true) g sst0 evs.
+  lrun before_4de5a6b g sst0 evs = lrun head g sst0 evs /\
+  lrun_wraps before_4de5a6b g sst0 evs = lrun_wraps head g sst0 evs.
 Proof. exact (fun g evs => lrun_answered true false true true g (length evs) evs sst0 (le_n _)). Qed.
-Print Assumptions C09_head_when_interims_are_answered.
+Print Assumptions C09_before_4de5a6b_when_interims_are_answered.
 
 (* historical (code before 5478db8): it behaved exactly like /repo HEAD on every history without a late
    Accounting-Response for a released session *)
 Theorem C09_before_5478db8_without_late_response :
   forall g evs, no_late evs = true ->
-  lrun before_5478db8 g sst0 evs = lrun (V true false true true) g sst0 evs /\
-  lrun_wraps before_5478db8 g sst0 evs = lrun_wraps (V true false true true) g sst0 evs.
+  lrun before_5478db8 g sst0 evs = lrun head g sst0 evs /\
+  lrun_wraps before_5478db8 g sst0 evs = lrun_wraps head g sst0 evs.
 Proof. exact (fun g evs => lrun_no_late true false true true g evs sst0). Qed.
 Print Assumptions C09_before_5478db8_without_late_response.
 
@@ -199,17 +194,17 @@ Definition ex_hist : list sev :=
    ETick (rd 5 20) false; ERestart; EPrune false; ERestored 6 0; ETick (rd 5 7) true; ETick (rd 6 3) true;
    EReleased (rd 6 9); EReleased (rd 6 9)].
 Example C09_nonvacuous :
-  lrun_wraps (V true false true true) false sst0 ex_hist = false /\ no_prune ex_hist = true /\
+  lrun_wraps head false sst0 ex_hist = false /\ no_prune ex_hist = true /\
   c4_leb (total_readings ex_hist) (C4 (W - 1) (W - 1) (W - 1) (W - 1)) = true /\
   (* before 9b87063: 1020 was sent, not acknowledged; after the restart 1005 is sent *)
   sent_rxb (outputs (snd (lrun before_9b87063 false sst0 ex_hist))) = [400; 1000; 1005; 1020; 1005; 1008; 1014] /\
   (* /repo HEAD (sent high-water mark): never below 1020 again *)
-  sent_rxb (outputs (snd (lrun (V true false true true) false sst0 ex_hist))) = [400; 1000; 1005; 1020; 1020; 1023; 1029] /\
+  sent_rxb (outputs (snd (lrun head false sst0 ex_hist))) = [400; 1000; 1005; 1020; 1020; 1023; 1029] /\
   lrun_wraps before_9b87063 false sst0 ex_hist = false /\
   length (filter (fun o => match o with Start => true | _ => false end)
-                 (outputs (snd (lrun (V true false true true) false sst0 ex_hist)))) = 1%nat /\
+                 (outputs (snd (lrun head false sst0 ex_hist)))) = 1%nat /\
   length (filter (fun o => match o with Stop _ => true | _ => false end)
-                 (outputs (snd (lrun (V true false true true) false sst0 ex_hist)))) = 1%nat.
+                 (outputs (snd (lrun head false sst0 ex_hist)))) = 1%nat.
 Proof. vm_compute. repeat split. Qed.
 Print Assumptions C09_nonvacuous.
 
@@ -218,7 +213,7 @@ Example C09_wire_nonvacuous :
   wire_range c = true /\ w_in_giga (encode_wire 2 c) = Some 1 /\ w_out_giga (encode_wire 2 c) = Some 2 /\
   w_in_oct (encode_wire 2 c) = 2000000 /\ decode_wire (encode_wire 2 c) = c /\
   w_in_giga (encode_wire 3 (C4 (W32 - 1) 0 0 0)) = None /\
-  forallb (fun o => wire_range (counters_of o)) (outputs (snd (lrun (V true false true true) false sst0 ex_hist))) = true.
+  forallb (fun o => wire_range (counters_of o)) (outputs (snd (lrun head false sst0 ex_hist))) = true.
 Proof. vm_compute. repeat split. Qed.
 Print Assumptions C09_wire_nonvacuous.
 
@@ -232,9 +227,9 @@ Definition ex_l2gw : list sev :=
 Definition sent_io (l : list out) : list (N * N) :=
   map (fun c => (rxb c, txb c)) (flat_map (fun o => match o with Interim c _ => [c] | Stop c => [c] | Start => [] end) l).
 Example C09_nonvacuous_l2gw :
-  lrun_wraps (V true false true true) true sst0 ex_l2gw = false /\ no_prune ex_l2gw = true /\
+  lrun_wraps head true sst0 ex_l2gw = false /\ no_prune ex_l2gw = true /\
   sent_io (outputs (snd (lrun before_9b87063 true sst0 ex_l2gw))) = [(500, 900); (540, 960); (540, 1060); (547, 1067)] /\
-  sent_io (outputs (snd (lrun (V true false true true) true sst0 ex_l2gw))) = [(500, 900); (540, 960); (540, 1060); (541, 1060)].
+  sent_io (outputs (snd (lrun head true sst0 ex_l2gw))) = [(500, 900); (540, 960); (540, 1060); (541, 1060)].
 Proof. vm_compute. repeat split. Qed.
 Print Assumptions C09_nonvacuous_l2gw.
 
@@ -242,7 +237,7 @@ Print Assumptions C09_nonvacuous_l2gw.
 Definition ex_delay : list dev :=
   [DHold true; DEv (EActive 5 0); DEv (ETick (rd 5 400) true); DEv (EReleased (rd 5 500)); DRelease].
 Example C09_nonvacuous_delivery :
-  lrun_wraps (V true false true true) false sst0 (dev_events ex_delay) = false /\ never_restored (dev_events ex_delay) = true /\
+  lrun_wraps head false sst0 (dev_events ex_delay) = false /\ never_restored (dev_events ex_delay) = true /\
   no_delay ex_delay = false /\
   map status_of (snd (drun head false dst0 ex_delay)) = [3; 2; 1] /\           (* HEAD: Interim, Stop, Start *)
   map status_of (snd (drun repaired false dst0 ex_delay)) = [1; 3; 2].         (* ordered: Start, Interim, Stop *)
@@ -262,7 +257,7 @@ Print Assumptions C09_wrap_hypothesis_needed.
 Example C09_prune_hypothesis_needed :
   exists evs, lrun_wraps before_7faf7f9 false sst0 evs = false /\ no_prune evs = false /\
               nondecreasing c4z (outputs (snd (lrun before_7faf7f9 false sst0 evs))) = false /\
-              nondecreasing c4z (outputs (snd (lrun (V true false true true) false sst0 evs))) = true.
+              nondecreasing c4z (outputs (snd (lrun head false sst0 evs))) = true.
 Proof.
   exists [EActive 5 0; ETick (rd 5 1000) true; ERestart; EPrune true; ERestored 5 0; ETick (rd 5 5) true].
   vm_compute. auto.
@@ -274,8 +269,8 @@ Print Assumptions C09_prune_hypothesis_needed.
 Definition ex_inflight : list sev :=
   [EActive 5 0; ETick (rd 5 500000) true; ETick (rd 5 1500000) false; EReleased (Snaps (Some []) None); EAck].
 Example C09_nonvacuous_inflight :
-  lrun_wraps (V true false true true) false sst0 ex_inflight = false /\ no_prune ex_inflight = true /\
-  sent_rxb (outputs (snd (lrun (V true false true true) false sst0 ex_inflight))) = [500000; 1500000; 1500000] /\
+  lrun_wraps head false sst0 ex_inflight = false /\ no_prune ex_inflight = true /\
+  sent_rxb (outputs (snd (lrun head false sst0 ex_inflight))) = [500000; 1500000; 1500000] /\
   sent_rxb (outputs (snd (lrun before_9b87063 false sst0 ex_inflight))) = [500000; 1500000; 500000].
 Proof. vm_compute. repeat split. Qed.
 Print Assumptions C09_nonvacuous_inflight.
@@ -291,19 +286,19 @@ Print Assumptions C09_delivered_strict_refuted.
 
 
 
-(* known finding restart-while-interim-unanswered-forgets-last-sent: 100 is sent, the process restarts before the response,
-   the session is restored and released with no dataplane reading: the Stop carries 7 *)
-Theorem C09_restart_while_unanswered_refuted :
-  exists evs, lrun_wraps head false sst0 evs = false /\ no_prune evs = true /\
-              nondecreasing_sent c4z (outputs (snd (lrun head false sst0 evs))) = false /\
-              nondecreasing_sent c4z (outputs (snd (lrun (V true false true true) false sst0 evs))) = true.
+
+(* ================= historical: fixed in /repo ================= *)
+(* fixed in 4de5a6b (restart-while-interim-unanswered-forgets-last-sent): 100 is sent, the process restarts before the response,
+   the session is restored and released with no dataplane reading: the Stop carried 7 *)
+Theorem C09_before_4de5a6b_restart_refuted :
+  exists evs, lrun_wraps before_4de5a6b false sst0 evs = false /\ no_prune evs = true /\
+              nondecreasing_sent c4z (outputs (snd (lrun before_4de5a6b false sst0 evs))) = false /\
+              nondecreasing_sent c4z (outputs (snd (lrun head false sst0 evs))) = true.
 Proof.
   exists [EActive 5 0; ETick (rd 5 7) true; ETick (rd 5 100) false; ERestart; ERestored 5 0; EReleased (Snaps (Some []) None)].
   vm_compute. auto.
 Qed.
-Print Assumptions C09_restart_while_unanswered_refuted.
-
-(* ================= historical: fixed in /repo ================= *)
+Print Assumptions C09_before_4de5a6b_restart_refuted.
 (* fixed in 5478db8 (late-accounting-response-recreates-checkpoint-of-released-session): an Interim is unanswered when the
    session was released (Stop, checkpoint deleted); its response - acknowledged or failed - arrived afterwards and
    sendAccountingUpdate wrote the checkpoint again; after a restart the ghost entry was pruned with a SECOND Stop
@@ -312,7 +307,7 @@ Theorem C09_before_5478db8_ghost_refuted :
   exists evs, lrun_wraps before_5478db8 false sst0 evs = false /\
               stops_ok false (snd (lrun before_5478db8 false sst0 evs)) = false /\
               strictT BClosed (snd (lrun before_5478db8 false sst0 evs)) = false /\
-              stops_ok false (snd (lrun (V true false true true) false sst0 evs)) = true.
+              stops_ok false (snd (lrun head false sst0 evs)) = true.
 Proof.
   exists [EActive 5 0; ETick (rd 5 100) false; EReleased (Snaps (Some []) None); ELate true; ERestart; EPrune true].
   vm_compute. auto.
@@ -325,7 +320,7 @@ Theorem C09_before_7faf7f9_prune_refuted :
   exists evs, lrun_wraps before_7faf7f9 false sst0 evs = false /\
               bracketed false (outputs (snd (lrun before_7faf7f9 false sst0 evs))) = false /\
               strictT BClosed (snd (lrun before_7faf7f9 false sst0 evs)) = false /\
-              bracketed false (outputs (snd (lrun (V true false true true) false sst0 evs))) = true.
+              bracketed false (outputs (snd (lrun head false sst0 evs))) = true.
 Proof. exists [EActive 5 0; ERestart; EPrune true; EActive 5 0]. vm_compute. auto. Qed.
 Print Assumptions C09_before_7faf7f9_prune_refuted.
 (* fixed in 9b87063: a report whose Accounting-Response was lost (2000) was followed by a smaller one (1005) *)
